@@ -301,6 +301,15 @@ def monitor_inputs(rng, n_per_stream, tier):
     return jobs
 
 
+# nesting kinds the parser handles by recursive descent (chains built iteratively - binary operators, calls, field accesses,
+# concatenation, else-if - have no limit)
+RECURSIVE_KINDS = {'paren', 'block', 'ifelse', 'lambda', 'unary-not', 'unary-neg', 'generic', 'tuple', 'match', 'fn-type', 'tuple-pattern'}
+
+
+def recovered_inputs():
+    return [('ill-typed', {'Main': t}) for t in texts.recovered_name_programs()]
+
+
 def nesting_inputs(tier):
     """22 nesting shapes up to depth / chain length 2000 (the bound of this check); beyond the parser's
     nesting limit (200) nested shapes must be rejected with a diagnostic, below it they must go through every
@@ -334,10 +343,13 @@ def run_monitor(jobs, timeout=1500):
 
 
 def classify(stream, v):
-    """Known-finding class id of a monitor failure, or None.  No class of C05 is open at present: the four
+    """Known-finding class id of a monitor failure, or None.  One class is open (exponential type checking: two corpus
+    witnesses, recognised by their stream name); apart from it no class of C05 is open: the four
     findings of this check (empty doc comment, unbound type parameter in the checker, exponential if/else
     formatting, unbounded parser recursion) are repaired; their witnesses are in corpus/C05 and run first, and
     every panic, hang or abort is a violation."""
+    if stream in ('corpus:013-nested-generic-calls.sam', 'corpus:014-diamond-interfaces.sam') and v.get('outcome') == 'hang':
+        return 'C05-exponential-type-checking'
     return None
 
 
@@ -424,6 +436,7 @@ def run(tier, seed, replay=None):
     jobs += monitor_inputs(rng.fork(), n_stream // 5 if n_stream else 0, tier)
     if not replay:
         jobs += nesting_inputs(tier)
+        jobs += recovered_inputs()
     mres, rc, raw = run_monitor(jobs, timeout=2400)
     if rc != 0:
         ck.obligation('harness-monitor', False, 'vh lex-run monitor exited with %s: %s' % (rc, raw[-300:]))
@@ -447,6 +460,14 @@ def run(tier, seed, replay=None):
         ck.count('C-outcome:' + v['outcome'])
         if v.get('compile'):
             ck.count('C-compile:' + v['compile'])
+        if s0 == 'nesting' and v['outcome'] == 'ok':
+            # constructs the parser descends into recursively are limited to 200 levels: deeper ones must be REJECTED with a
+            # diagnostic (that they merely did not crash on this machine's stack is not enough)
+            _, kind, depth = stream.split(':')
+            if kind in RECURSIVE_KINDS and int(depth) >= 400 and v.get('errors', 0) == 0:
+                ck.property_failure('%s: nested %s levels deep and accepted without the nesting-limit diagnostic' % (stream, depth),
+                                    {'generator': stream, 'text_head': list(src.values())[0][:200]}, expected='`Nesting is too deep.`',
+                                    observed='no diagnostic', how='gen/texts.py deep_nesting(%r, %s) through vh lex-run monitor' % (kind, depth))
         if v['outcome'] != 'ok':
             what = {'panic': 'panic in ' + ', '.join('%s (%s)' % (p[0], p[1][:120]) for p in v.get('panics', [])),
                     'hang': 'no result within the 5 s watchdog (stage %s)' % v.get('stage'),
